@@ -97,6 +97,17 @@ Theorem C02_join_table_is_relational x y lc rc m cols lcs rcs :
 Proof. exact (join_fixed_rows x y lc rc m cols lcs rcs). Qed.
 Print Assumptions C02_join_table_is_relational.
 
+(* each output row carries the key, every other column of both sides, and the same-named non-key columns
+   combined as the mode prescribes (None: the pair, l / 0: left, r / 1: right, callable: its value) *)
+Theorem C02_row_carries_columns x y m cols k i j :
+  (forall n c, In (n, c) (combine cols k) -> In (n, OC c) (out_row x y m cols (k, i, j))) /\
+  (forall n, In n (lkeys_of x y cols) -> In (n, OC (cellat x n i)) (out_row x y m cols (k, i, j))) /\
+  (forall n, In n (rkeys_of x y cols) -> In (n, OC (cellat y n j)) (out_row x y m cols (k, i, j))) /\
+  (forall n, In n (jkeys_of x y cols) -> In (n, apply_mode m (cellat x n i) (cellat y n j)) (out_row x y m cols (k, i, j))) /\
+  (length k = length cols -> map fst (out_row x y m cols (k, i, j)) = out_names x y cols).
+Proof. exact (out_row_columns x y m cols k i j). Qed.
+Print Assumptions C02_row_carries_columns.
+
 Theorem C02_join_table_cross x y lc rc m :
   let l1 := resolve_l x y lc in let r1 := resolve_r l1 rc in
   length l1 = length r1 -> key_names l1 r1 = Some [] ->
